@@ -781,6 +781,67 @@ def forward_demanded(hu, hv):
     return hu == hv or list_same_suffix(hu, hv) or (dns_name(hu) and dns_name(hv) and list_outside(hu, hv))
 
 
+# --------------------------------------------------------------------------------------
+# per-run law on the REAL split_suffix (reported as a broken obligation `law`): the real-function instance of
+# Ural.Props.C13.hostLen_subdomain / sameSuffixSplit_of_outside, the fact the suffix-aware forward theorem rests
+# on — "where the suffix boundary falls is decided by the trailing labels": if the public suffix of a subdomain
+# pre.h has fewer labels than h (or pre.h has none), then h has the very same public suffix (or none).
+# Implementation only (no model, no list): whatever rule list and matching discipline split_suffix uses, a
+# split that lets a label further LEFT move the boundary (seed C13-6: the whole host decoded at once) fails it.
+# --------------------------------------------------------------------------------------
+RUN_OBLIGATIONS = (
+    "subdomain law of the real ural.tld.split_suffix (the real-function instance of hostLen_subdomain): for every "
+    "ordered pair (h, pre.h) of DNS names of every public-suffix-list family of this run (exception, wildcard, "
+    "sampled plain and IDN rules in every spelling): if the suffix split_suffix gives pre.h has fewer labels than "
+    "h, or it gives none, split_suffix gives h the same suffix / none"
+)
+
+
+def _real_suffix(h):
+    lib.ural()
+    from ural.tld import split_suffix
+
+    r = split_suffix(h)
+    return None if r is None else r[1]
+
+
+def subdomain_law_failures(families, limit=6):
+    msgs, n, memo = [], 0, {}
+
+    def suf(h):
+        if h not in memo:
+            memo[h] = _real_suffix(h)
+        return memo[h]
+
+    for kind, rule, hosts in families:
+        hs = [h for h in hosts if dns_name(h) and not P.oracle_special(h)]
+        for hu in hs:
+            for hv in hs:
+                if not strict_sub(hu, hv):
+                    continue
+                n += 1
+                sv = suf(hv)
+                if sv is None or len(sv.split(".")) < len(hu.split(".")):
+                    su = suf(hu)
+                    if su != sv:
+                        if len(msgs) < limit:
+                            msgs.append(
+                                "subdomain law of split_suffix (family of rule %s): split_suffix(%r) has the suffix %r, which "
+                                "lies inside %r, but split_suffix(%r) has the suffix %r" % (rule, hv, sv, hu, hu, su)
+                            )
+                        else:
+                            msgs.append(None)
+    if msgs:
+        k = len(msgs)
+        msgs = [m for m in msgs if m is not None]
+        msgs[0] = "%d of %d (host, subdomain) pairs fail; first: %s" % (k, n, msgs[0])
+    return msgs, n
+
+
+def run_obligations(tier="quick"):
+    return subdomain_law_failures(psl_families(tier))[0]
+
+
 KF_MARK = "[ancestor inside the public suffix: by the public suffix list the two hosts do not have the same suffix]"
 
 
